@@ -1,13 +1,18 @@
 #!/bin/bash
 # reseed.sh [id...] : re-run the current quick check against kept seeded changes and refresh meta.json "check"
+# The checks run from a snapshot of /verif (outside /repo and /verif, removed at the end), so that /verif can be edited
+# meanwhile; results go to /verif/seeded/<id>/meta.json.
+SNAP=$(mktemp -d /tmp/verif-snap.XXXXXX)
+rsync -a --exclude build --exclude .git --exclude replays /verif/ $SNAP/ && mkdir -p $SNAP/replays
+trap 'rm -rf $SNAP' EXIT
 cd /verif
 ids="$@"; [ -z "$ids" ] && ids=$(ls seeded)
 for id in $ids; do
   d=seeded/$id; [ -f $d/meta.json ] || continue
   prop=$(python3 -c "import json;print(json.load(open('$d/meta.json'))['breaks_property'])")
   git -C /repo apply /verif/$d/patch.diff || { echo "$id: patch does not apply"; continue; }
-  t0=$(date +%s); ./check $prop quick > /tmp/reseed-$id.out 2>&1; rc=$?; t1=$(date +%s)
-  git -C /repo checkout -- .
+  t0=$(date +%s); $SNAP/check $prop quick > /tmp/reseed-$id.out 2>&1; rc=$?; t1=$(date +%s)
+  git -C /repo apply -R /verif/$d/patch.diff 2>/dev/null; git -C /repo checkout -- .; git -C /repo clean -fdq
   classes=$(grep -E "^violation:" /tmp/reseed-$id.out | sed -E 's/violation: class=([^ ]+) key=(.*) runs=([0-9]+).*/\1{\2} x\3/' | paste -sd';')
   python3 - "$d" "$prop" "$rc" "$classes" "$((t1-t0))" <<'PY'
 import json,sys
@@ -18,4 +23,3 @@ json.dump(m,open(d+'/meta.json','w'),indent=1)
 print("%-40s %s caught=%s  %s (%ss)"%(d.split('/')[-1],prop,int(rc)==1,classes[:150],secs))
 PY
 done
-find /verif/replays -name '*.json' -delete
